@@ -5,7 +5,12 @@ HERE = os.path.dirname(os.path.abspath(__file__))
 
 
 def harness_files(tier, seed):
-    return [os.path.join(HERE, 'hC01.py')]
+    files = [os.path.join(HERE, 'hC01.py')]
+    if tier == 'thorough':
+        # 24 type expressions of depth 3 drawn from the grammar with VERIF_SEED (regenerated at import from the seed)
+        os.environ['VERIF_SEED'] = str(seed)
+        files.append(os.path.join(HERE, 'hC01g.py'))
+    return files
 
 
 META = dict(
@@ -14,7 +19,8 @@ META = dict(
            "type-directed near-valid values to depth 2 (sequences of length 0..3, structs with optional/extra keys, nested dataclasses)",
     configs="50 type expressions to nesting depth 2-3 (scalars, Literal, Enum, all container constructors, struct/tuple literals, "
             "unions, Optional, Annotated conditions, 8 dataclass shapes incl. tuple layout, aliases, hooks, init=False, nesting) + "
-            "10 groups of equivalent spellings (typing / PEP 585 / collections.abc / Optional orders / literals)",
+            "12 groups of equivalent spellings (typing / PEP 585 / collections.abc / Optional orders / literals / bare forms); thorough: "
+            "+ 24 type expressions of depth 3 drawn from the grammar with VERIF_SEED, on type-directed values with 3 symbolic leaf slots",
     stubs=[],
     outside=["cross-kind equal values against Literal/Enum values (True == 1 == 1.0): not judged",
              "text parsed by stdlib constructors (Decimal, Fraction, dates, paths, regex sources): C03/C04/C06 use a concrete vocabulary",
